@@ -256,11 +256,14 @@ pub fn p_cat<T: Deserr<Rec<M_LOG>> + Cat>(ok_reachable: bool, two: bool) {
     let r = deserialize::<T, SV, Rec<M_LOG>>(SV(0));
     let mut exp = Exp::new();
     T::expect(0, &LOC0, &mut exp);
+    // the value first: a field filled from the wrong entry is C07's, whatever it does to the reports
+    if let Ok(v) = &r {
+        v.check_value(0);
+    }
     post_tagged(&exp);
     match &r {
-        Ok(v) => {
+        Ok(_) => {
             assert!(exp.n == 0, "C02: Ok although the payload contains a fault");
-            v.check_value(0);
         }
         Err(e) => {
             assert!(exp.n > 0, "C02: Err although the payload contains no fault");
